@@ -183,6 +183,14 @@ def _case(draw):
         case['new_weak'] = sorted(draw(st.sets(st.integers(0, 5), max_size=2))) if draw(st.integers(0, 2)) == 0 else []
         # the older elements may also be !weak (they never survive; a weak newer element at the same index is the later among equals)
         case['old_weak'] = sorted(draw(st.sets(st.integers(0, 3), max_size=2))) if draw(st.integers(0, 3)) == 0 else []
+        # one pair of elements may be containers: an older mapping / list / call node (protected or not) met by a newer list or mapping.
+        # The protected older container stays exactly what it is (what is pruned from the newer list must not show up in it)
+        m_ = min(n_old, len(case['new_list']))
+        if m_ and draw(st.integers(0, 2)) == 0:
+            j = draw(st.integers(0, m_ - 1))
+            oc = draw(st.sampled_from(['map', 'list', 'call']))
+            case['cont'] = {'j': j, 'old': oc, 'force': True if oc == 'call' else draw(st.booleans()),
+                            'new': draw(st.sampled_from(['list1', 'list2', 'list3', 'map', 'nested']))}
         return case
     if mode in ('a', 'b'):
         # the focus must be a mapping when it sits at depth 0 (a document root is a mapping)
@@ -682,8 +690,29 @@ def _run_e(case, labels):
     new_weak = set(case.get('new_weak', []))
     old_weak = set(i for i in case.get('old_weak', []) if i < len(old_list) and not old_list[i][1])
     old_list = [[v, (-1 if i in old_weak else p)] for i, (v, p) in enumerate(old_list)]
-    holder['items'] = [it for it in holder['items'] if it[0] != 'L'] + [['L', tdoc.sq([tdoc.sc(v, **({'prio': p, 'mdstyle': 'short'} if p else {})) for v, p in old_list], flow=True)]]
-    lst = tdoc.sq([tdoc.sc(v, **({'prio': -1, 'mdstyle': 'short'} if i in new_weak else {})) for i, v in enumerate(new_list)], flow=True)
+    old_elems = [tdoc.sc(v, **({'prio': p, 'mdstyle': 'short'} if p else {})) for v, p in old_list]
+    new_elems = [tdoc.sc(v, **({'prio': -1, 'mdstyle': 'short'} if i in new_weak else {})) for i, v in enumerate(new_list)]
+    cont = case.get('cont')
+    if cont and (cont['j'] in new_weak or cont['j'] in old_weak):
+        cont = None
+    if cont:
+        j = cont['j']
+        oc = {'map': tdoc.mp([('k', tdoc.sc(100))], flow=True), 'list': tdoc.sq([tdoc.sc(100)], flow=True),
+              'call': tdoc.mp([('id', tdoc.sc(100))], flow=True, tag='!call:vfrec.call_77')}[cont['old']]
+        if cont['force']:
+            oc.update(prio=1, mdstyle='short')
+        nc = {'list1': tdoc.sq([tdoc.sc(200)], flow=True), 'list2': tdoc.sq([tdoc.sc(200), tdoc.sc(201)], flow=True),
+              'list3': tdoc.sq([tdoc.sc(200), tdoc.sc(201), tdoc.sc(202)], flow=True), 'map': tdoc.mp([('q', tdoc.sc(200))], flow=True),
+              'nested': tdoc.sq([tdoc.sq([tdoc.sc(200), tdoc.sc(201)], flow=True), tdoc.sc(202)], flow=True)}[cont['new']]
+        old_elems[j], new_elems[j] = oc, nc
+        old_list[j] = [ev(oc), 1 if cont['force'] else 0]
+        new_list = list(new_list)
+        new_list[j] = ev(nc)
+        labels.add('e-container-elements')
+        if cont['force']:
+            labels.add('e-protected-container-meets-newer-' + ('mapping' if cont['new'] == 'map' else 'list'))
+    holder['items'] = [it for it in holder['items'] if it[0] != 'L'] + [['L', tdoc.sq(old_elems, flow=True)]]
+    lst = tdoc.sq(new_elems, flow=True)
     new_prio = [(-1 if i in new_weak else 0) for i in range(len(new_list))]
     if via == 'list':
         newer = _wrap(path + ['L'], lst)
@@ -714,15 +743,20 @@ def _run_e(case, labels):
     if new_weak & set(range(len(new_list))):
         labels.add('e-weak-newer-elements')
     nontrivial = bool(protected)
+    if cont:
+        # (values that are containers: the exact comparison below says everything)
+        key = lambda x: repr(O.canon(x))
+        protected, must_new, may_new = [key(x) for x in protected], [key(x) for x in must_new], [key(x) for x in may_new]
+        got_keys = [key(x) for x in got_at] if isinstance(got_at, list) else None
     ok = (isinstance(got_at, list) and O.canon_unordered(frame_got) == O.canon_unordered(frame_expected)
-          and all(type(x) is int for x in got_at) and len(set(got_at)) == len(got_at)
-          and set(protected) <= set(got_at) and set(must_new) <= set(got_at)
-          and set(got_at) <= set(protected) | set(must_new) | set(may_new))
+          and (cont or all(type(x) is int for x in got_at)) and len(set(got_keys if cont else got_at)) == len(got_at)
+          and set(protected) <= set(got_keys if cont else got_at) and set(must_new) <= set(got_keys if cont else got_at)
+          and set(got_keys if cont else got_at) <= set(protected) | set(must_new) | set(may_new))
     # ... and since R61 (positions are kept while the lists are merged) also where: index by index the protected older element or else the
     # newer one, then the protected older elements beyond the end of the newer list, in their order
     exact = [old_list[j][0] if (j < len(old_list) and old_list[j][1] > new_prio[j]) else new_list[j] for j in range(len(new_list))] + \
         [v for j, (v, p) in enumerate(old_list) if j >= len(new_list) and p > 0]
-    if ok and got_at != exact:
+    if ok and O.canon(O.to_builtin(got_at)) != O.canon(exact):
         raise Violation(f'C04e: list {[v for v, _ in old_list]} with !force elements {protected} replaced by {new_list}: every element is there, but not '
                         f'where it belongs: got {got_at!r}, expected {exact!r} (a protected element keeps its index, the newer elements theirs){src}')
     if not ok:
